@@ -259,6 +259,12 @@ namespace ipr {
    //       dtor-name
    //       template-parameter-canonical-name
 
+   struct xpr_type_expr {
+      const Expr& type;
+      explicit xpr_type_expr(const Expr& t) : type(t) { }
+   };
+   static Printer& operator<<(Printer&, xpr_type_expr);
+
    namespace xpr {
       struct Name : pp_base {
          explicit Name(Printer& p) : pp_base(p) { }
@@ -316,7 +322,12 @@ namespace ipr {
          // A type-id is just the spelling of the type expression.
          void visit(const Type_id& n) final
          {
-            pp << xpr_type(n.type_expr());
+            // The name of a compound type is the type-id of that very type:
+            // spell the type expression out rather than asking for its name again.
+            if (physically_same(n.type_expr().name(), n))
+               pp << xpr_type_expr(n.type_expr());
+            else
+               pp << xpr_type(n.type_expr());
          }
 
          // -- A Scope_ref corresponds to Standard C++ notion of
@@ -1328,11 +1339,6 @@ namespace ipr {
          *this << q.logogram();
       return *this;
    }
-
-   struct xpr_type_expr {
-      const Expr& type;
-      explicit xpr_type_expr(const Expr& t) : type(t) { }
-   };
 
    template<typename T>
    static Printer& operator<<(Printer& pp, const ipr::Udt<T>& t)
